@@ -9,7 +9,8 @@
 // generic, so code added or moved by a later change is rewritten the same way.
 //
 // usage: simgen -dir <module root> [-io spec]... <package patterns...>
-//   -io "<pkg path suffix>:<import path>=<replacement import path>,..."
+//
+//	-io "<pkg path suffix>:<import path>=<replacement import path>,..."
 package main
 
 import (
@@ -82,7 +83,7 @@ func main() {
 		rules = append(rules, r)
 	}
 	cfg := &packages.Config{
-		Mode: packages.NeedName | packages.NeedFiles | packages.NeedSyntax | packages.NeedTypes | packages.NeedTypesInfo | packages.NeedImports | packages.NeedDeps | packages.NeedCompiledGoFiles,
+		Mode:  packages.NeedName | packages.NeedFiles | packages.NeedSyntax | packages.NeedTypes | packages.NeedTypesInfo | packages.NeedImports | packages.NeedDeps | packages.NeedCompiledGoFiles,
 		Dir:   *dir,
 		Tests: *withTests,
 	}
@@ -462,9 +463,10 @@ func (r *rewriter) rewrite() {
 	})
 }
 
-
 // rewriteMapRange turns   for k, v := range m { B }   into
-//   for _, k := range simrt.Keys(m) { v, ok := m[k]; if !ok { continue }; B }
+//
+//	for _, k := range simrt.Keys(m) { v, ok := m[k]; if !ok { continue }; B }
+//
 // (deterministic order; entries deleted during the iteration are skipped, as
 // the language requires). A map expression that is not a plain identifier or
 // field selection is bound to a temporary first.
